@@ -9,6 +9,7 @@ var All = []*ev.Property{
 	C02,
 	C03,
 	C04,
+	C05,
 	C08,
 	C11,
 	C14,
